@@ -171,21 +171,22 @@ def gen_program(rng, int_only=False):
     for _ in range(v(2, 4)):
         probe(main_atoms)
     static_kw = ' STATIC' if rng.random() < 0.3 else ''
-    L.append('CALL p(g1%, g2&, "lit", garr%(), gpts())')
-    L.append('CALL p(g1% + 1, (g2&), g5$, garr%(), gpts())')
+    L.append('CALL p(g1%, gseg, g2&, "lit", garr%(), gpts(), gpts(1))')
+    L.append('CALL p(g1% + 1, gseg, (g2&), g5$, garr%(), gpts(), spt)')
     for _ in range(v(1, 2)):
         probe(main_atoms)
-    L.append('r# = f#(g4#)')
+    L.append('r# = f#(g4#, g2&)')
     probe(main_atoms + [('r#', 'd')])
     L.append('END')
-    L.append(f'SUB p (a%, b&, c$, arr%(), pts() AS pt){static_kw}')
+    # whole records as parameters (one reference cell each, between the others)
+    L.append(f'SUB p (a%, rp AS sgm, b&, c$, arr%(), pts() AS pt, ep AS pt){static_kw}')
     L += ['  DIM l1 AS LONG, larr#(2), lpt AS pt', '  STATIC st%', f'  CONST lc% = {v(2, 9)}', f'  CONST dup% = {v(200, 299)}',
           '  CONST dups$ = "inner"',
           f'  l1 = {v(100000, 200000)}: larr#(1) = 6.5: larr#(2) = {v(1, 9)}: lpt.x = {v(1, 9)}: lpt.y = {v(1, 99999)}: st% = st% + {v(1, 5)}']
     sub_atoms = [('a%', 'i'), ('b&', 'l'), ('c$', 't'), ('arr%(1)', 'i'), (f'arr%({n1})', 'i'), ('pts(1).x', 'i'), ('pts(2).y', 'l'),
                  ('l1', 'l'), ('larr#(1)', 'd'), ('larr#(2)', 'd'), ('lpt.x', 'i'), ('lpt.y', 'l'), ('st%', 'i'), ('lc%', 'i'),
                  ('gc%', 'i'), ('gs$', 't'), ('gd#', 's'), ('sh', 'l'), (f'sarr({slo})', 'i'), ('spt.y', 'l'), ('arr%(lpt.x MOD 2)', 'i'),
-                 ('dup%', 'i'), ('dups$', 't')]
+                 ('dup%', 'i'), ('dups$', 't'), ('rp.a.x', 'i'), ('rp.a.y', 'l'), ('rp.w', 's'), ('rp.b.y', 'l'), ('ep.x', 'i'), ('ep.y', 'l')]
     if defint:
         L.append(f'  k = {v(1, 9)}')
         sub_atoms.append(('k', 'i'))
@@ -197,7 +198,8 @@ def gen_program(rng, int_only=False):
     L.append('  a% = a% + 1: arr%(0) = arr%(0) + 1')
     probe(sub_atoms, '  ')
     L.append('END SUB')
-    L.append('FUNCTION f# (x#)')
+    # a parameter named like a SHARED variable hides it inside the routine
+    L.append('FUNCTION f# (x#, sh AS LONG)')
     L += ['  DIM t AS DOUBLE', '  t = x# * 2']
     fn_atoms = [('x#', 'd'), ('t', 'd'), ('gc%', 'i'), ('gd#', 's'), ('sh', 'l'), ('spt.x', 'i'), ('dup%', 'i'), ('dups$', 't')]
     for _ in range(v(1, 2)):
